@@ -578,6 +578,8 @@ def main(res, tier, rng, replay):
         kind = ['plan', 'lib', 'hier', 'c07', 'c08'][i % 5]
         if i % 40 == 39:
             kind = 'derived'
+        if i % 20 == 7:
+            kind = 'wide'
         try:
             if kind == 'plan':
                 d = GV.plan_design(r, wmax=r.choice([1, 3, 8, 16, 33]))
@@ -589,6 +591,8 @@ def main(res, tier, rng, replay):
                 d = GV.c08_design(r)
             elif kind == 'derived':
                 d = GV.derived_clock_design(r)
+            elif kind == 'wide':
+                d = GV.wide_design(r)
             else:
                 d = GV.hier_design(r)
         except Exception as e:
